@@ -4056,15 +4056,18 @@ impl Collection {
                     // return the same document repeatedly and the duplicates
                     // would consume the caller's `limit`. First-occurrence
                     // order is preserved, matching the other branches.
+                    //
+                    // The scan is never stopped at `limit`: it walks the index
+                    // in *key* order, so its first `limit` ids are the ids of
+                    // the first keys, not the smallest (or largest) ids. Like
+                    // `And`/`Or`, this branch returns the full match set and
+                    // the caller sorts by id and trims to `limit`.
                     let mut rt: UniqueVec<DocumentId> =
                         UniqueVec::with_capacity(Self::reserve_hint(limit));
                     index.try_range_query_ids(filter, order.is_descending(), |ids| {
                         for id in ids {
                             if candidates.is_none_or(|s| s.contains(id)) {
                                 rt.push(*id);
-                                if limit > 0 && rt.len() >= limit {
-                                    return false;
-                                }
                             }
                         }
                         true
